@@ -103,8 +103,9 @@ class Crate:
         self.free_fns = {}  # name -> FnInfo
         self.impls = []     # (trait name or None, self type, file, line, attrs)
         self.files = []     # [(path, modkey)]
+        self.rejected_items = {}
         self.unsupported_types = {}   # name -> reason (fields outside the supported types)
-        self.rejected_items = {}      # description -> reason (items that could not even be declared)
+        # rejected_items: description -> reason (items that could not even be declared)
         self.file_order = []
         self.raw_items = []
         self.load(os.path.join(root, 'src', 'lib.rs'), 'Lib')
@@ -113,6 +114,8 @@ class Crate:
     # -- loading
     def load(self, path, key):
         items = parse_file(path)
+        for line, msg in getattr(parse_file, 'skipped', {}).get(path, []):
+            self.rejected_items['item at %s:%s' % (os.path.relpath(path, self.root), line)] = msg
         self.files.append((path, key))
         self.raw_items.append((path, key, items))
         d = os.path.dirname(path)
